@@ -260,6 +260,8 @@ class Sweep:
          {'a': 2, 'b': 4, 'c': 5}, {'a': 2, 'b': 4, 'c': 6}]
 
         """
+        if not self.items or not all(other.items for other in others):
+            return Sweep({})  # a product with a sweep that has no combinations has none
         items = self.items.copy()
         dims = self.dims.copy() if self.dims is not None else None
 
